@@ -82,7 +82,7 @@ def concrete_confirm(item, r, f):
     if not lift.get("ok"):
         return None, "re-lift failed"
     model = f["model"]
-    endian = "little" if item["arch"] == "mipsel" else "big"
+    endian = item.get("endian") or ("little" if item["arch"] == "mipsel" else "big")
     try:
         cst, ending = liftcheck.concrete_replay(lift, model, endian, None)
     except replay.Fault as e:
